@@ -54,14 +54,30 @@ func fullCheck(k *checker, g *chaingen.Gen, nFilters int) {
 		return
 	}
 	k.CheckRoot()
+	floor := k.m.Floor // blocks below it may have been pruned (entitled floor of the last prune)
 	for i, b := range k.m.Chain {
-		k.CheckBlock(b)
+		if uint64(i) < floor {
+			k.CheckBelowFloor(b, false)
+			if uint64(i)+1 < floor {
+				k.CheckStateErrorOrCorrect(i, g)
+				continue
+			}
+		} else {
+			k.CheckBlock(b)
+		}
+		// historical state from one block below the floor upwards
 		k.CheckStateAt(i, g, i == len(k.m.Chain)-1)
 	}
 	c := k.n.c
 	head := k.m.Head().B.Number
 	for i := 0; i < nFilters; i++ {
 		f := genFilter(c, g, head)
+		if f.from < floor {
+			f.from = floor
+		}
+		if f.to < f.from {
+			f.to = head
+		}
 		ch := evChunks[c.T.Draw("ev.chunk", len(evChunks))]
 		lim := evLimits[c.T.Draw("ev.limit", len(evLimits))]
 		k.CheckEvents(f, []uint64{ch, 1000}, []uint{lim})
